@@ -1303,6 +1303,47 @@ Proof.
   exists r. repeat split; auto. exact (eval_own_numbering _ r m (fam_num_inj _) E).
 Qed.
 
+(** * the same theorems under hypotheses on the input file alone ([cli_wf]) *)
+Lemma cli_run_reads x warned m objs : cli_run x = CliOk warned m objs -> exists inp, read_input x = Some inp.
+Proof. intros H. destruct (cli_run_ok x warned m objs H) as [inp [_ [E _]]]. eauto. Qed.
+
+Corollary cli_objects_parse_back_wf x warned m objs :
+  cli_wf x -> nn (c_hgt (ci_costs x)) ->
+  cli_run x = CliOk warned m objs ->
+  exists inp, read_input x = Some inp /\
+  forall d, In d objs ->
+  exists r, parse_back d = Some r /\ result_input r = Plain (base_of inp) /\
+            eval_result (own_num r) r = Some m.
+Proof.
+  intros W Hh H. destruct (cli_run_reads _ _ _ _ H) as [inp Er]. exists inp. split; [exact Er|].
+  exact (cli_objects_parse_back_own x inp warned m objs Er (read_input_wf x inp W Er) Hh H).
+Qed.
+
+Lemma cli_wf_policy x rp : cli_wf x -> cli_wf (set_policy x rp).
+Proof. intros [A B C D E F]. constructor; assumption. Qed.
+
+Corollary cli_all_superset_any_wf x wa ma oa wl ml ol :
+  cli_wf x -> nn (c_hgt (ci_costs x)) -> cli_region (ci_algo x) (ci_costs x) ->
+  cli_run (set_policy x RANY) = CliOk wa ma oa ->
+  cli_run (set_policy x RALL) = CliOk wl ml ol ->
+  incl oa ol /\ ma = ml.
+Proof.
+  intros W Hh R Ha Hl. destruct (cli_run_reads _ _ _ _ Ha) as [inp Er]. rewrite read_input_policy in Er.
+  exact (cli_all_superset_any x inp wa ma oa wl ml ol Er (read_input_wf x inp W Er) Hh R Ha Hl).
+Qed.
+
+(* the region named by the property text (DESIGN section 9) is inside the region of every algorithm *)
+Lemma cli_region_of_coherent key c :
+  (0 <= c_floss c)%Z -> (0 <= c_sloss c)%Z -> (c_spe c + 2 * c_sloss c <= c_dup c + 2 * c_floss c)%Z ->
+  cli_region key c.
+Proof.
+  intros Hf Hs Hc. unfold cli_region.
+  destruct ((key =? "lca") || (key =? "exh")); [exact I|].
+  destruct (key =? "thl"); [split; lia|].
+  destruct ((key =? "base_spfs") || (key =? "ext_spfs")); [unfold coherent_ord; repeat split; lia|].
+  unfold ucoherent. repeat split; lia.
+Qed.
+
 (** * non-vacuity: an input with unnamed ancestors, a "NoName" ancestor and a given name that
       looks like a generated one; six optimal unordered super-reconciliations *)
 Definition ex_costs : Recon.costs := {| c_spe := 0; c_dup := 1; c_hgt := Fin 1; c_floss := 1; c_sloss := 1 |}.
@@ -1367,6 +1408,9 @@ Print Assumptions cli_objects_parse_back_own.
 Print Assumptions eval_numbering_irrelevant.
 Print Assumptions cli_all_superset_any.
 Print Assumptions cli_names.
+Print Assumptions cli_objects_parse_back_wf.
+Print Assumptions cli_all_superset_any_wf.
+Print Assumptions cli_region_of_coherent.
 Print Assumptions cli_super_without_syntenies.
 Print Assumptions read_input_wf.
 Print Assumptions cli_example.
